@@ -15,6 +15,10 @@
      (8 n hasid samekey)         n annotations with one inline data item each, loaded again with 4n:
                                  safety 5 = more than seven times the cpu time
      (9 strip arrays)            as (1 ..) with a non-empty store, but through merge_json_str
+     (11 mode tkind b e)         AnnotationSelector with offset b..e on an annotation whose own target is
+                                 of kind tkind (5: text of length 5, 6: annotation with offset, length 2,
+                                 others: no text); mode 0 JSON, 1 annotate_from_file, 2 CSV
+     (12 ..)                     CBOR length headers rewritten: measured only
    sub-cases: [safety] or [safety; result].
      safety: 0 fine, 1 panic, 2 abort, 3 hang, 4 memory over budget, 5 cpu time over budget,
              6 the loaded store is not sane (a lookup panicked / aborted)
@@ -181,6 +185,10 @@ Definition run_C19 (x : sx) : sx :=
   | 8%nat =>
       let sl := superlinear (sx_N (sx_nth 1 x)) (sx_bool (sx_nth 2 x)) (sx_bool (sx_nth 3 x)) in
       L [triple (L [A (if sl then 5 else 0)]) (L [A 0]) (if sl then 4 else 0); triple (L [A 0]) (L [A 0]) 0]
+  | 11%nat =>
+      let parent := match sx_nat (sx_nth 2 x) with 5%nat => Some 5 | 6%nat => Some 2 | _ => None end in
+      let o := ann_offset parent (sx_N (sx_nth 3 x)) (sx_N (sx_nth 4 x)) in
+      L [triple (safety_sx o false) (L [A 0]) 0; triple (res_sx o) (res_sx o) 0]
   | 9%nat => run_visit (sx_bool (sx_nth 1 x)) 1
                        (map (fun l => map velem_of (sx_list l)) (sx_list (sx_nth 2 x)))
   | _ => L [triple (L [A 0]) (L [A 0]) 0]
